@@ -96,8 +96,10 @@ func branchAction(env *nenv, list []ast.Stmt) (string, bool) {
 
 // decisionChain normalises the decision part of handleHandshake / handleAuth into
 // (condition, action) pairs ending with ("else", action).  Accepted spellings:
-//   if c1 {a1} else if c2 {a2} else {a3}; return Send        (non-returning branches)
-//   if c1 {a1; return Send}; if c2 {a2; return Send}; a3; return Send    (early returns)
+//
+//	if c1 {a1} else if c2 {a2} else {a3}; return Send        (non-returning branches)
+//	if c1 {a1; return Send}; if c2 {a2; return Send}; a3; return Send    (early returns)
+//
 // and a two-way decision written with the negated condition is turned round.  Anything else —
 // in particular a statement between the checks — is reported with a "seq:" marker and matches
 // no canonical chain.
